@@ -26,6 +26,7 @@
    (C17_client_go_refused, C17_client_deadline_always_capped, C17_client_deadline_uncapped_refuted_pinned). *)
 From Coq Require Import NArith ZArith List Bool String.
 Require Import Board Move GameOver PtnMove Playtak Tps TeiBudget Tei TeiSpec TeiFacts TeiTotal TeiExamples.
+Require Selfplay SelfplayFacts SelfplayFacts2 SelfplayFacts3 SelfplayExamples Reach1.
 Require TeiClient TeiClientFacts TeiClientFacts2 TeiClientFacts3 TeiClientFacts4 TeiClientExamples Preserve1 TpsFacts5 TpsFacts6 PreserveEx Generated.Consts.
 Import ListNotations.
 
@@ -326,3 +327,113 @@ Theorem C17_client_nonvacuous :
      e_pos (TeiClient.p_eng (TeiClient.c_es c2)) = Some PreserveEx.p14).
 Proof. exact TeiClientExamples.cx_all. Qed.
 Print Assumptions C17_client_nonvacuous.
+
+(* ===================================== selfplay: the system (cmd/internal/selfplay/simulate.go) ===================================== *)
+(* Model coq/Selfplay.v: the per-game loop of `worker` (two clients of TeiClient.v, NewGame on both, colours by p1color, TimeControl
+   bookkeeping with the measured durations as inputs, Limit as the context deadline with the measured time left as input,
+   log.Fatalf = GFatal, panic("illegal move") = GPanic, Cutoff) and Simulate's tally.  Proofs coq/SelfplayFacts*.v, with both engine
+   processes = Engine.Run of Tei.v (tei_proc).  good p = the hypotheses of C10's exact round trip (pos_ok, reserves matching the
+   board, default tie-break flag); ready c g sz = client in step with its engine, current game g, engine configured for size sz;
+   reach p = p is replayed from the start position of a 3x3..6x6 board with the default piece counts (on those boards every stack
+   fits the 64-bit stack word, so C01's invariant is kept unconditionally); opening_ok = reach, live, ply + Cutoff < 2^63. *)
+
+(* One call.  TEIGetMove by the player of a ready client on a good position with a searcher that is right at that position:
+   Ok m, m legal in p, the engine held exactly p, the client is ready again (same game, same size). *)
+Theorem C17_selfplay_call :
+  forall (SS : Type) (mk_searcher : Z -> SS) (search : SS -> option Z -> position -> SS * (list rmove * Z * Z * Z))
+         (c : TeiClient.client (TeiClient.proc SS)) (g : Z) (p : position) (dl : option Z) (tc : option TeiClient.tctl),
+  TeiClientFacts3.searcher_ok_wire_at SS search p -> SelfplayFacts.ready SS c g (Z.of_N (Move.size p)) -> SelfplayFacts.good p ->
+  (0 <= Move.move p < 2 ^ 63)%Z ->
+  (forall d, dl = Some d -> TeiClientFacts2.int64 d) -> (forall t, tc = Some t -> TeiClientFacts2.tc_int64 t) ->
+  TeiClient.go_words dl tc <> None ->
+  exists c2 m, TeiClient.tei_get_move (TeiClient.proc SS) (TeiClient.tei_proc Generated.Consts.gen_basis SS mk_searcher search) c g p dl tc
+                 = (c2, TeiClient.ROk m) /\
+    legal Generated.Consts.gen_basis p (to_rmove m) /\ SelfplayFacts.ready SS c2 g (Z.of_N (Move.size p)) /\
+    e_pos (TeiClient.p_eng (TeiClient.c_es c2)) = Some p.
+Proof. exact SelfplayFacts.tei_get_move_ok. Qed.
+Print Assumptions C17_selfplay_call.
+
+(* One game.  Both searchers answer live positions with a legal, wire-shaped first PV move (searcher_ok of C17_tei_one_bestmove +
+   wire_move); Increment 0 or in [1 ms, 2^63); GameTime 0 or at least 1 ms and GameTime + Cutoff*Increment < 2^63; every measured
+   duration in [0, 2^63); when Limit <> 0 the time left that TEIGetMove measures is at least 1 ms at every call (with the repaired
+   client a smaller one is refused and the worker dies in log.Fatalf: SelfplayExamples.sx_limit_too_short - so Limit must exceed
+   1 ms by the client's latency); both clients in step with their engines; the opening reachable on a 3x3..6x6 board, live, with
+   room for Cutoff plies.  Then the game ends with a Result - no panic, no Fatalf, no hang - the clients are in step again, and:
+   Initial is the opening; Moves replays the opening to Position through the move model (every answer was legal where it was
+   asked); at most Cutoff moves; and Winner is GameOver's winner of Position when the game ended on the board, or the opponent of
+   the side to move in Position (still live; a clock was in use) when that side's clock ran out, or NoColor with exactly Cutoff
+   moves played. *)
+Theorem C17_selfplay_game :
+  forall (SS1 : Type) (mk1 : Z -> SS1) (search1 : SS1 -> option Z -> position -> SS1 * (list rmove * Z * Z * Z))
+         (SS2 : Type) (mk2 : Z -> SS2) (search2 : SS2 -> option Z -> position -> SS2 * (list rmove * Z * Z * Z))
+         (cf : Selfplay.config),
+  TeiClientFacts3.searcher_ok_wire SS1 search1 -> TeiClientFacts3.searcher_ok_wire SS2 search2 ->
+  (Selfplay.cf_increment cf = 0 \/ 1000000 <= Selfplay.cf_increment cf < 2 ^ 63)%Z ->
+  (Selfplay.cf_gametime cf = 0 \/
+   (1000000 <= Selfplay.cf_gametime cf /\ Selfplay.cf_gametime cf + Z.of_nat (Selfplay.cf_cutoff cf) * Selfplay.cf_increment cf < 2 ^ 63))%Z ->
+  forall (dur left : nat -> Z) (w : Selfplay.wstate (TeiClient.proc SS1) (TeiClient.proc SS2)) (g : Selfplay.spec),
+  (forall k, 0 <= dur k < 2 ^ 63)%Z -> (Selfplay.cf_limit cf <> 0%Z -> forall k, (1000000 <= left k < 2 ^ 63)%Z) ->
+  SelfplayFacts3.wsync SS1 SS2 w -> SelfplayFacts3.opening_ok cf (Selfplay.sp_opening g) ->
+  exists w' r,
+    Selfplay.play_game (TeiClient.proc SS1) (TeiClient.proc SS2)
+      (TeiClient.tei_proc Generated.Consts.gen_basis SS1 mk1 search1) (TeiClient.tei_proc Generated.Consts.gen_basis SS2 mk2 search2)
+      Generated.Consts.gen_basis cf dur left w g = (w', Selfplay.GDone r) /\
+    SelfplayFacts3.wsync SS1 SS2 w' /\ SelfplayFacts3.result_ok cf g r.
+Proof. exact SelfplayFacts3.play_game_ok. Qed.
+Print Assumptions C17_selfplay_game.
+
+(* what result_ok says, spelled out *)
+Theorem C17_selfplay_result_ok : forall (cf : Selfplay.config) (g : Selfplay.spec) (r : Selfplay.result),
+  SelfplayFacts3.result_ok cf g r <->
+  (Selfplay.r_initial r = Selfplay.sp_opening g /\
+   Reach1.replay (Selfplay.sp_opening g) (map to_rmove (Selfplay.r_moves r)) = Move.Ok (Selfplay.r_position r) /\
+   (List.length (Selfplay.r_moves r) <= Selfplay.cf_cutoff cf)%nat /\
+   (game_over (Selfplay.r_position r) = Some (true, Selfplay.r_winner r) \/
+    (live (Selfplay.r_position r) /\ Selfplay.cf_gametime cf <> 0%Z /\
+     Selfplay.r_winner r = Selfplay.flip_mover (to_move_white (Selfplay.r_position r))) \/
+    (live (Selfplay.r_position r) /\ Selfplay.r_winner r = GNone /\ List.length (Selfplay.r_moves r) = Selfplay.cf_cutoff cf))).
+Proof. exact SelfplayFacts3.result_ok_iff. Qed.
+Print Assumptions C17_selfplay_result_ok.
+
+(* Several games in a row on the same two clients (each NewGame bumps the client's game number and resets its engine:
+   C17_tei_newgame_resets): every game is played to a Result with the properties above. *)
+Theorem C17_selfplay_games :
+  forall (SS1 : Type) (mk1 : Z -> SS1) (search1 : SS1 -> option Z -> position -> SS1 * (list rmove * Z * Z * Z))
+         (SS2 : Type) (mk2 : Z -> SS2) (search2 : SS2 -> option Z -> position -> SS2 * (list rmove * Z * Z * Z))
+         (cf : Selfplay.config),
+  TeiClientFacts3.searcher_ok_wire SS1 search1 -> TeiClientFacts3.searcher_ok_wire SS2 search2 ->
+  (Selfplay.cf_increment cf = 0 \/ 1000000 <= Selfplay.cf_increment cf < 2 ^ 63)%Z ->
+  (Selfplay.cf_gametime cf = 0 \/
+   (1000000 <= Selfplay.cf_gametime cf /\ Selfplay.cf_gametime cf + Z.of_nat (Selfplay.cf_cutoff cf) * Selfplay.cf_increment cf < 2 ^ 63))%Z ->
+  forall (dur left : nat -> nat -> Z) (gs : list Selfplay.spec) (j : nat) (w : Selfplay.wstate (TeiClient.proc SS1) (TeiClient.proc SS2)),
+  (forall j k, 0 <= dur j k < 2 ^ 63)%Z -> (Selfplay.cf_limit cf <> 0%Z -> forall j k, (1000000 <= left j k < 2 ^ 63)%Z) ->
+  SelfplayFacts3.wsync SS1 SS2 w -> Forall (fun g => SelfplayFacts3.opening_ok cf (Selfplay.sp_opening g)) gs ->
+  exists w' rs,
+    Selfplay.play_games (TeiClient.proc SS1) (TeiClient.proc SS2)
+      (TeiClient.tei_proc Generated.Consts.gen_basis SS1 mk1 search1) (TeiClient.tei_proc Generated.Consts.gen_basis SS2 mk2 search2)
+      Generated.Consts.gen_basis cf dur left j w gs = (w', rs, None) /\
+    SelfplayFacts3.wsync SS1 SS2 w' /\ Forall2 (SelfplayFacts3.result_ok cf) gs rs.
+Proof. exact SelfplayFacts3.play_games_ok. Qed.
+Print Assumptions C17_selfplay_games.
+
+(* Non-vacuity, by running the models: two 3x3 games in a row from the empty board (colours swapped), both engines the engine model
+   with a toy searcher (first legal flat placement), Limit 2 s, 60 s + 1 s clocks, calls of 5, 10, 15 ... ms: nine plies each,
+   White wins on flats, Moves replays the opening to the final position, both clients are at game 2; and a Limit of 0.9 ms ends
+   the worker in Fatalf("Timeout too short"). *)
+Theorem C17_selfplay_nonvacuous :
+  SelfplayFacts3.opening_ok SelfplayExamples.sx_cf SelfplayExamples.sx_start /\ SelfplayFacts3.wsync unit unit SelfplayExamples.sx_w0 /\
+  (match SelfplayExamples.sx_run with
+   | (w, [r1; r2], None) =>
+     map (fun m => format_move false m) (Selfplay.r_moves r1) = map str ["a1"; "b1"; "c1"; "a2"; "b2"; "c2"; "a3"; "b3"; "c3"]%string /\
+     Selfplay.r_moves r2 = Selfplay.r_moves r1 /\ game_over (Selfplay.r_position r1) = Some (true, Selfplay.r_winner r1) /\
+     Selfplay.r_winner r1 = GWhite /\
+     Reach1.replay SelfplayExamples.sx_start (map to_rmove (Selfplay.r_moves r1)) = Move.Ok (Selfplay.r_position r1) /\
+     TeiClient.c_gameid (Selfplay.w_c1 w) = 2%Z /\ TeiClient.c_gameid (Selfplay.w_c2 w) = 2%Z
+   | _ => False
+   end) /\
+  snd (Selfplay.play_game (TeiClient.proc unit) (TeiClient.proc unit) SelfplayExamples.toy_eng SelfplayExamples.toy_eng Generated.Consts.gen_basis
+         {| Selfplay.cf_cutoff := 30; Selfplay.cf_limit := 900000; Selfplay.cf_gametime := 0; Selfplay.cf_increment := 0 |}
+         (SelfplayExamples.sx_dur 0) (fun _ => 899000%Z) SelfplayExamples.sx_w0
+         {| Selfplay.sp_opening := SelfplayExamples.sx_start; Selfplay.sp_p1white := true |}) = Selfplay.GFatal TeiClient.ETimeoutShort.
+Proof. exact SelfplayExamples.sx_all. Qed.
+Print Assumptions C17_selfplay_nonvacuous.
